@@ -54,6 +54,7 @@ def proj_val(kind, v):
     raise MachineryError(kind)
 
 
+_EXT = [0]
 _SHAPE = [0]      # owner shape: 0 an ordinary HasTraits class, 1 a class whose instances are FALSY (__len__ gives 0)
 
 
@@ -155,7 +156,9 @@ def list_perform(obj, op, a, xs):
     elif op == "append":
         obj.append(xs[0])
     elif op == "extend":
-        obj.extend(iter(xs))
+        # the argument as a list iterator (its length can be asked for) or as a generator (it cannot), by turns
+        _EXT[0] += 1
+        obj.extend(iter(xs) if _EXT[0] % 2 else (x for x in xs))
     elif op == "iadd":
         obj += xs
     elif op == "imul":
